@@ -191,7 +191,8 @@ def case_split(d, n1, n2):
     spec = None
     if impl.startswith('ok '):
         _, rt, ct = impl.split(' ')
-        spec = 'c07.spec_split %s %d %d %s %s' % (dt, n1, n2, rt, ct)
+        srt = bool(np.all(d[:-1, 2] <= d[1:, 2])) if len(d) > 1 else True
+        spec = 'c07.spec_split %s %d %d %s %s %s' % (dt, n1, n2, rt, ct, enc_bool(srt))
     c = Case(('split', dt, n1, n2), {'entry': 'split_dendrogram'}, run, impl, spec, n1 + n2 >= 3,
              {'f': 'split_dendrogram', 'dendrogram': [[int(r[0]), int(r[1]), dd.enc_ht(r[2]), int(r[3])] for r in d],
               'shape': [n1, n2]})
@@ -230,7 +231,8 @@ def _out_cases(alg_name, opts, a, alg, impl_state, sorted_expected, key, sig, de
         c.tol = True
         out.append(c)
         c = Case(key + ('split',), dict(sig, attr='dendrogram_row_/col_'), 'c07.split %s %d %d' % (full, n1, n2),
-                 'ok %s %s' % (rt, ct), 'c07.spec_split %s %d %d %s %s' % (full, n1, n2, rt, ct), nontriv, desc)
+                 'ok %s %s' % (rt, ct), 'c07.spec_split %s %d %d %s %s %s' % (full, n1, n2, rt, ct, enc_bool(sorted_expected)),
+                 nontriv, desc)
         c.tol = True
         out.append(c)
     else:
